@@ -1,7 +1,7 @@
 (* C07 — Any valid encoding of a conforming message is accepted and verifies.
    Statements only (copied from coq/theories by bin/mkprops); each proof is `exact <lemma>`. *)
 From Coq Require Import Ascii String ZArith List Bool Permutation.
-From GoCose Require Import Bytes Cbor CborProofs Res GoVal Obs Ecdsa EcdsaProofs Fx Headers Enc Dec Msg HashEnv Key SigVer Run TbsProofs FlowProofs DecProofs KeyProofs HdrProofs EncProofs EncCanon NoPanic Effects.
+From GoCose Require Import Bytes Cbor CborProofs Res GoVal Obs Ecdsa EcdsaProofs Fx Headers Enc Dec Msg HashEnv Key SigVer Run TbsProofs FlowProofs DecProofs KeyProofs HdrProofs EncProofs EncCanon NoPanic Effects MoreProofs.
 From GoCose.Gen Require Import Generated.
 Import ListNotations.
 Open Scope Z_scope.
@@ -67,3 +67,27 @@ Theorem C07_sign1_conforming_verifies :
   fst (sign1_verify (mkS1 h (Some payload) (Some b)) ext vf) = Acc tt.
 Proof. exact sign1_conforming_verifies. Qed.
 Print Assumptions C07_sign1_conforming_verifies.
+
+(* the same converse for COSE_Signature / COSE_Countersignature *)
+Theorem C07_signature_conforming_accepted :
+  forall p u sg h b w,
+  wf (WArr W0 [p; u; sg]) = true ->
+  depth_ok false (WArr W0 [p; u; sg]) 0 = true ->
+  sg = WStr false w b -> b <> [] ->
+  dec_headers p u = Acc h ->
+  unmarshal_signature (ser (WArr W0 [p; u; sg])) = Acc (mkSig h (Some b)).
+Proof. exact signature_conforming_accepted. Qed.
+Print Assumptions C07_signature_conforming_accepted.
+
+(* and for COSE_Sign with any number of signers and any head width of the signature array *)
+Theorem C07_signmsg_conforming_accepted :
+  forall p u pl ws items h payload sigs,
+  wf (WArr W0 [p; u; pl; WArr ws items]) = true ->
+  depth_ok false (WArr W0 [p; u; pl; WArr ws items]) 0 = true ->
+  bstr_or_nil pl = Acc payload ->
+  items <> [] ->                                             
+  mapM dec_signature_item items = Acc sigs ->                
+  dec_headers p u = Acc h ->
+  unmarshal_signmsg (216 :: 98 :: ser (WArr W0 [p; u; pl; WArr ws items])) = Acc (mkSM h payload (map Some sigs)).
+Proof. exact signmsg_conforming_accepted. Qed.
+Print Assumptions C07_signmsg_conforming_accepted.
